@@ -145,7 +145,11 @@ func GenTree(t *rapid.T, depth int, id *int, cfg GenCfg) *TCmd {
 			}
 			na := rapid.IntRange(1, 3).Draw(t, "naliases")
 			for j := 0; j < na; j++ {
-				s.Aliases = append(s.Aliases, fmt.Sprintf("c%d%c", *id*10+i, 'a'+j))
+				al := fmt.Sprintf("c%d%c", *id*10+i, 'a'+j)
+				if chance(t, 1, 6, "nonasciialias") {
+					al = fmt.Sprintf("c%d%cé", *id*10+i, 'a'+j) // command names are arbitrary words, not only ASCII
+				}
+				s.Aliases = append(s.Aliases, al)
 			}
 			c.Subs = append(c.Subs, s)
 		}
